@@ -75,7 +75,14 @@ def scan_harnesses():
             attrs = {}
             for k, v in re.findall(r'(\w+)=("[^"]*"|\S+)', m.group(1)):
                 attrs[k] = v.strip('"')
-            attrs['props'] = attrs.get('prop', '').split(',')
+            # `prop=C05,C04:thorough`: listed under C04 in the thorough tier only
+            attrs['props'] = []
+            attrs['prop_tier'] = {}
+            for it in attrs.get('prop', '').split(','):
+                pid, _, ov = it.partition(':')
+                attrs['props'].append(pid)
+                if ov:
+                    attrs['prop_tier'][pid] = ov
             attrs['name'] = '%s::%s' % (mod, m.group(2))
             attrs.setdefault('tier', 'quick')
             attrs.setdefault('kind', 'check')
@@ -205,7 +212,7 @@ def build_native(ctx, profile):
 
 
 # ---------------------------------------------------------------------- kani
-NSLOTS = int(os.environ.get('VERIF_JOBS', '6'))
+NSLOTS = int(os.environ.get('VERIF_JOBS', '8'))
 
 
 def acquire_slot():
@@ -241,7 +248,8 @@ def run_kani(ctx, h, extra_cfg=(), logdir=None):
     cmd = ['cargo', 'kani', '-Z', 'stubbing', '-Z', 'concrete-playback', '--concrete-playback=print',
            '--harness', name, '--exact', '--target-dir', os.path.join(SCRATCH, 'kt%d' % slot)]
     env = dict(os.environ, CARGO_NET_OFFLINE='true', RUSTFLAGS=flags)
-    res = dict(harness=name, kind=h['kind'], bound=h.get('bound', ''), encodes=h.get('encodes', ''))
+    res = dict(harness=name, kind=h['kind'], bound=h.get('bound', ''), encodes=h.get('encodes', ''),
+               stretch=(h.get('tier') == 'thorough' and h.get('must') != '1'), expect=h.get('expect', 'WITNESS'))
     try:
         with open(logp, 'w') as lf:
             p = subprocess.Popen(cmd, cwd=ctx.harness, env=env, stdout=lf, stderr=subprocess.STDOUT, preexec_fn=_limits(h['mem']))
@@ -271,6 +279,11 @@ def parse_kani_log(text, res):
         res['status'] = 'timeout'
         return
     m = re.search(r'VERIFICATION:- (SUCCESSFUL|FAILED)', text)
+    if 'CBMC appears to have run out of memory' in text or 'ran out of memory' in text or ('CBMC failed' in text and 'Failed Checks' not in text):
+        # out of memory / solver crash is never a verdict
+        res['status'] = 'oom'
+        res['detail'] = 'CBMC failed or ran out of memory'
+        return
     if 'error: could not compile' in text or re.search(r'^error(\[E\d+\])?:', text, re.M) and not m:
         res['status'] = 'compile_error'
         res['detail'] = '\n'.join(l for l in text.splitlines() if l.startswith('error'))[:2000]
